@@ -69,11 +69,21 @@ func main() {
 	hashes := flag.Bool("emit-hashes", false, "print per-run log and result hashes (determinism self-test)")
 	maxFail := flag.Int("maxfail", 2, "stop after this many failing runs")
 	keys := flag.Bool("emit-keys", false, "print the distinct-case keys (for merging across workers)")
+	reference := flag.Bool("reference", false, "serve baseline answers from a tree that is never extended (child of a worker)")
 	flag.Parse()
+	if *reference {
+		core.StartWatchdog(120*time.Second, func() string { return "reference process" })
+		lib.ServeReference()
+		return
+	}
 
 	var where string
 	core.StartWatchdog(60*time.Second, func() string { return where })
 	lib.Init()
+	if err := lib.StartReference(); err != nil {
+		fmt.Fprintln(os.Stderr, "HARNESS: reference process:", err)
+		os.Exit(2)
+	}
 	k := core.NewKernel()
 	enc := json.NewEncoder(os.Stdout)
 
